@@ -3,6 +3,8 @@ package main
 // Contract files: comment-only Go files (behind //go:build verif) holding //@ lines.
 //
 //   //@ ghostfield Set.nodes set
+//   //@ ghostvar astN map                     (ghost variable of the unit: set | map | int | bool | strmap; written by ghost
+//                                              statements, listed in `modifies var`)
 //   //@ const INF = 1099511627776
 //   //@ pred wf(s *Set) = expr ...            (macro, expanded at use)
 //   //@ specfunc card(s *Set, r *Node) int    (uninterpreted function of its arguments AND the heap fields listed with `reads`)
@@ -28,6 +30,14 @@ package main
 //                                              proof obligation `path condition is unsatisfiable` instead of a vacuity check)
 //
 // A line that does not start with a keyword continues the previous clause.
+//
+// Names: struct types declared inside a function body (`type element struct` in tokens.AST) are named like package-level
+// types (`e * element`, `element.down`). A parameter or local variable of the function shadows a specification constant of
+// the same name. In requires/ensures a parameter denotes its entry value; in loop invariants and ghost statements it denotes
+// its current value (old(p) = entry value).
+// Expression forms added for C05: idx() also in the invariant of a loop nested in a range loop and in ghost statements of
+// its body (the index is already advanced there: the current element is idx() - 1); substr(s, lo, hi) = string([]rune(s)[lo:hi]); at(m, k) on a strmap yields a string.
+// Assumed contracts of variadic external functions may name the variadic operands va0, va1, ...
 
 import (
 	"fmt"
@@ -127,6 +137,7 @@ type ContractSet struct {
 	SpecFuncs   map[string]*SpecFunc
 	Consts      map[string]string // name -> integer literal text
 	GhostFields map[string]string // "Set.nodes" -> "set" | "int"
+	GhostVars   map[string]Sort   // ghost variables of the unit (shared with Unit.ExtraCells)
 	Axioms      []*Axiom
 	Lemmas      []*Axiom
 	Files       []string
@@ -140,7 +151,7 @@ func NewContractSet() *ContractSet {
 		Consts: map[string]string{}, GhostFields: map[string]string{}}
 }
 
-var topKeywords = map[string]bool{"defpred": true, "smt": true, "ghostfield": true, "const": true, "pred": true, "specfunc": true, "axiom": true, "lemma": true, "func": true, "closure": true}
+var topKeywords = map[string]bool{"ghostvar": true, "defpred": true, "smt": true, "ghostfield": true, "const": true, "pred": true, "specfunc": true, "axiom": true, "lemma": true, "func": true, "closure": true}
 var clauseKeywords = map[string]bool{"uses": true, "requires": true, "ensures": true, "modifies": true, "overflow": true, "loop": true, "ghost": true, "let": true, "trusted": true, "pure": true, "ghostargs": true, "dead": true, "lemmafunc": true}
 
 type rawDirective struct {
@@ -229,6 +240,12 @@ func (cs *ContractSet) ParseFile(path string) error {
 				return fail(err)
 			}
 			cs.SpecFuncs[name] = &SpecFunc{Name: name, Params: params, Result: "bool", Reads: reads, Body: body}
+		case "ghostvar":
+			f := strings.Fields(d.text)
+			if len(f) != 2 || cs.GhostVars == nil {
+				return fail(fmt.Errorf("want name sort (in a unit that accepts ghost variables)"))
+			}
+			cs.GhostVars[f[0]] = ghostSort(f[1])
 		case "ghostfield":
 			f := strings.Fields(d.text)
 			if len(f) != 2 {
